@@ -526,6 +526,7 @@ class Folder:
         # the process environment the folded program sees: None = no variable is set (documented defaults);
         # a string = EVERY variable is set to that value (the "configured" world of a configuration sweep)
         self.environ = environ
+        self.process_state = {}      # process-wide settings the folded code changed (sys.setrecursionlimit, ...)
         self._mod_env = {}
         self._in_progress = set()
 
@@ -773,6 +774,18 @@ class Folder:
                 return
             if not isinstance(obj, Stub):
                 raise AnalysisError("constfold: attribute store on a non-stub object")
+            if obj.cls is not None:
+                # the class's own __setattr__, or a property setter, decides what is stored
+                hook = obj.cls.find_method("__setattr__")
+                if hook is not None:
+                    return self.call_function(hook, [t.attr, v], {}, self_value=obj)
+                for c_ in obj.cls.mro():
+                    if not hasattr(c_, "setters"):
+                        continue
+                    if t.attr in c_.setters:
+                        return self.call_function(c_.setters[t.attr], [v], {}, self_value=obj)
+                    if t.attr in c_.methods:
+                        break
             obj.attrs[t.attr] = v
         elif isinstance(t, ast.Subscript):
             obj = self._eval(t.value, e)
@@ -1107,6 +1120,10 @@ class Folder:
                         return None
                     r_ = getattr(selfv.attrs["__dict__"], f.attr)(*args, **kw)
                     return list(r_) if f.attr in ("keys", "values", "items", "__iter__") else r_
+                if m is None and f.attr == "__setattr__" and isinstance(selfv, Stub):
+                    name_, val_ = self._elts(x.args, e)
+                    selfv.attrs[name_] = val_            # object.__setattr__: the plain store
+                    return None
                 if m is None:
                     if f.attr == "__init__":
                         return None
@@ -1114,6 +1131,12 @@ class Folder:
                 args = self._elts(x.args, e)
                 kw = self._kwargs(x, e)
                 return self.call_function(m, args, kw, self_value=selfv)
+            if isinstance(f.value, ast.Name) and f.value.id == "object" and not e.has("object") and f.attr == "__setattr__":
+                tgt_, name_, val_ = self._elts(x.args, e)
+                if not isinstance(tgt_, Stub):
+                    raise AnalysisError("constfold: object.__setattr__ on a non-stub object")
+                tgt_.attrs[name_] = val_
+                return None
             if isinstance(f.value, ast.Name) and f.value.id == "list" and not e.has("list") \
                     and f.attr in ("__getitem__", "__len__", "__iter__", "__contains__", "__add__", "__mul__", "append", "extend"):
                 args = self._elts(x.args, e)
@@ -1325,6 +1348,11 @@ class Folder:
                 empty = ast.Call(func=ast.Name(id="__factory__", ctx=ast.Load()), args=[], keywords=[])
                 tgt = args[0]
                 return collections.defaultdict(lambda: self._apply(tgt, empty, e))
+        if dotted == "sys.getrecursionlimit":
+            return self.process_state.setdefault("sys.recursionlimit", 1000)
+        if dotted == "sys.setrecursionlimit":
+            self.process_state["sys.recursionlimit"] = args[0]       # (observed by the reuse folds: a read leaves it alone)
+            return None
         if dotted == "sys.exc_info":
             return (None, None, None)        # only the traceback slot is ever used (with_traceback), and that is ignored
         if dotted == "collections.deque":
@@ -1524,7 +1552,7 @@ class Folder:
             return stub(*args, **kw)
         local = {}
         params = list(fn.params)
-        if fn.cls is not None and fn.kind in ("method", "property"):
+        if fn.cls is not None and fn.kind in ("method", "property", "setter"):
             if self_value is None:
                 raise AnalysisError(f"constfold: instance method call {fn.key}")
             local[params[0]] = self_value
